@@ -11,6 +11,7 @@
  *   f<fd>=<n><c|n>  private file n (1..60; n=0: /dev/null) on descriptor fd, c = FD_CLOEXEC
  *                   (the worker's own 0,1,2 are private files 61,62,63; the result line
  *                   goes to a close-on-exec copy of stdout at 250+)
+ *   B<sig>          block signal sig in the loop thread before anything is spawned
  *   r               report pipe: write end 100 (inheritable), read end 101
  *   g<n>            gate n: read end 110+2n (inheritable), write end 111+2n
  *   S<h>:<stdio>:<action>:<gate|->:<flags>   uv_spawn of child h
@@ -36,6 +37,7 @@
 #include <sys/wait.h>
 #include <sys/socket.h>
 #include <sys/resource.h>
+#include <time.h>
 #include "uv.h"
 #include "uv-common.h"
 #include "unix/internal.h"
@@ -194,6 +196,16 @@ int __wrap_pipe2(int fds[2], int flags) {
   return __real_pipe2(fds, flags);
 }
 
+static unsigned long long cur_mask(void) {
+  sigset_t cur;
+  unsigned long long v = 0;
+  int sig;
+  pthread_sigmask(SIG_SETMASK, NULL, &cur);
+  for (sig = 1; sig <= 64; sig++)
+    if (sigismember(&cur, sig) == 1) v |= 1ULL << (sig - 1);
+  return v;
+}
+
 static void snapshot(const char* tag, int h) {
   static char buf[16384];
   table_string(buf, sizeof buf, -1);
@@ -269,9 +281,14 @@ static void do_spawn(char* tok) {
   procs[h]->data = (void*) (intptr_t) h;
   gate_of[h] = gate;
   snapshot("P", h);
-  cur_spawn = h;
-  r = uv_spawn(&loop, procs[h], &opt);
-  cur_spawn = -1;
+  {
+    unsigned long long before = cur_mask(), after;
+    cur_spawn = h;
+    r = uv_spawn(&loop, procs[h], &opt);
+    cur_spawn = -1;
+    after = cur_mask();
+    OUT("M%d:%llx:%llx ", h, before, after);
+  }
   spawn_ok[h] = (r == 0);
   inj_sp = -1; inj_pipe = 0; inj_fork = 0;
   OUT("s%d:%d:%d ", h, r, uv_is_active((uv_handle_t*) procs[h]) ? 1 : 0);
@@ -349,6 +366,13 @@ static void run_case(char* line) {
     scan_last = -1;
     switch (tok[0]) {
     case 'L': break;
+    case 'B': {
+      sigset_t set;
+      sigemptyset(&set);
+      sigaddset(&set, atoi(tok + 1));
+      pthread_sigmask(SIG_BLOCK, &set, NULL);
+      break;
+    }
     case 'f':
       if (sscanf(tok + 1, "%d=%d%c", &a, &b, &c) == 3) {
         char path[4300];
@@ -398,6 +422,32 @@ static void run_case(char* line) {
       /* block in the loop until every child that is on its way out was dealt with */
       for (;;) {
         int h, waiting = 0;
+        if (cur_mask() & (1ULL << (SIGCHLD - 1))) {
+          /* SIGCHLD is blocked in the loop thread: libuv will never hear of an exit and
+           * uv_run would block for good.  Make sure the children are gone, give the loop
+           * two passes, and say who is still waiting. */
+          int first = 1;
+          for (h = 0; h < 32; h++) if (gate_due[h]) release_gate(h);   /* timers may not have run */
+          for (h = 0; h < MAXP; h++)
+            if (spawned[h] && spawn_ok[h] && !closed[h] && !stolen_h[h] && procs[h] &&
+                uv_is_active((uv_handle_t*) procs[h]) &&
+                (gate_of[h] < 0 || gate_due[gate_of[h]] || killed_h[h])) {
+              siginfo_t si;
+              int r;
+              do r = waitid(P_PID, pids[h], &si, WEXITED | WNOWAIT); while (r == -1 && errno == EINTR);
+            }
+          uv_run(&loop, UV_RUN_NOWAIT);
+          uv_run(&loop, UV_RUN_NOWAIT);
+          for (h = 0; h < MAXP; h++)
+            if (spawned[h] && spawn_ok[h] && !closed[h] && !stolen_h[h] && procs[h] &&
+                uv_is_active((uv_handle_t*) procs[h]) &&
+                (gate_of[h] < 0 || gate_due[gate_of[h]] || killed_h[h])) {
+              OUT("%s%d", first ? "stuck:" : ",", h);
+              first = 0;
+            }
+          if (!first) OUT(" ");
+          break;
+        }
         for (h = 0; h < MAXP; h++)
           if (spawned[h] && spawn_ok[h] && !closed[h] && !stolen_h[h] && procs[h] && uv_is_active((uv_handle_t*) procs[h]) &&
               (gate_of[h] < 0 || gate_due[gate_of[h]] || killed_h[h]))
@@ -492,7 +542,24 @@ int main(int argc, char** argv) {
       (void) k;
       _exit(0);
     }
-    do {} while (__real_waitpid(w, &st, 0) == -1 && errno == EINTR);
+    {
+      /* watchdog from outside: the worker's own alarm is useless once libuv has left
+       * SIGALRM blocked */
+      struct timespec t0, t1, nap = { 0, 500000 };
+      pid_t r;
+      clock_gettime(CLOCK_MONOTONIC, &t0);
+      for (;;) {
+        r = __real_waitpid(w, &st, WNOHANG);
+        if (r == w || (r == -1 && errno != EINTR)) break;
+        nanosleep(&nap, NULL);
+        clock_gettime(CLOCK_MONOTONIC, &t1);
+        if (t1.tv_sec - t0.tv_sec >= 8) {
+          kill(w, SIGKILL);
+          do r = __real_waitpid(w, &st, 0); while (r == -1 && errno == EINTR);
+          break;
+        }
+      }
+    }
     if (!(WIFEXITED(st) && WEXITSTATUS(st) == 0)) {
       printf("WORKER-DIED:%d\n", st);
       fflush(stdout);
